@@ -7,7 +7,7 @@
 //
 // Shapes that the C12 statement leaves open are either not generated (path= attribute, several paths or
 // verbs per mapping, generic or array
-// request-body types, nested classes, handler overloads) or generated with the affected field marked as
+// request-body types, handlers inside nested classes, handler overloads) or generated with the affected field marked as
 // "not determined by the statement" (see Mapping.PathDetermined / VerbDetermined, Class.BaseDetermined).
 //
 // Base paths that end in '/' are generated (shorthand and value= form, both annotation orders); the handlers of
@@ -62,6 +62,7 @@ const (
 	KindMethod  = "method"  // method without mapping annotation: nothing
 	KindField   = "field"
 	KindCtor    = "ctor"
+	KindNested  = "nested" // nested (member) class of the type: its methods contribute nothing
 )
 
 type Param struct {
@@ -108,10 +109,24 @@ type Member struct {
 	Return      string
 	Params      []Param
 	Throws      string
-	Body        []string // statements (methods, ctors); nil for interface methods
-	FieldText   string   // KindField: complete declaration without annotations
+	Body        []string   // statements (methods, ctors); nil for interface methods
+	FieldText   string     // KindField: complete declaration without annotations
+	Nested      *OtherType // KindNested
 	// derived
 	FirstMethodOfClass bool // first method declaration in the class body (constructors are not methods)
+	AfterNested        bool // a nested class is declared earlier in the class body
+}
+
+// OtherType is a further class declared in the file of a class: a nested class (a member, see KindNested) or a
+// second, package-private top-level class. It carries no mapping annotations; its methods contribute nothing,
+// and it must not lend its name to the entries of the handlers of the file.
+type OtherType struct {
+	Name    string
+	Where   string   // nested-before-first-handler | nested-between-handlers | nested-after-last-handler | nested-no-handlers | top-level-after | top-level-before
+	Annos   []string // annotations in front of the declaration
+	Mods    string   // "static", "public static", ... ("" for a second top-level class)
+	Methods []string // names of its methods
+	Lines   []string // the declaration, unindented
 }
 
 // BodyType returns the planted request-body type ("" = no parameter carries @RequestBody).
@@ -151,7 +166,8 @@ type Class struct {
 	Imports      []string
 	HeaderNote   string // comment before the class annotations
 	Members      []*Member
-	StaticVerbs  []string // verbs imported statically
+	StaticVerbs  []string   // verbs imported statically
+	Second       *OtherType // second top-level class of the file (nil = none)
 	Text         string
 	FileBaseName string // <Name>.java
 }
@@ -177,6 +193,20 @@ func (c *Class) OwnBase() string {
 		return ""
 	}
 	return c.Base
+}
+
+// OtherTypes lists the nested classes (in declaration order) and the second top-level class of the file.
+func (c *Class) OtherTypes() []*OtherType {
+	var out []*OtherType
+	for _, m := range c.Members {
+		if m.Kind == KindNested {
+			out = append(out, m.Nested)
+		}
+	}
+	if c.Second != nil {
+		out = append(out, c.Second)
+	}
+	return out
 }
 
 func (c *Class) Handlers() []*Member {
@@ -729,6 +759,21 @@ func (g *gen) controller(forceMap string) *Class {
 		}
 		members = append(members, ctor)
 	}
+	// nested request/response classes: anywhere among the members (the conventional layout puts them last)
+	typeNames := map[string]bool{c.Name: true}
+	if r.Chance(1, 4) {
+		for i, nN := 0, r.PickInt(1, 1, 2); i < nN; i++ {
+			ot := g.otherType(typeNames, noun, true)
+			members = append(members, &Member{Kind: KindNested, Name: ot.Name, Nested: ot})
+		}
+	}
+	if r.Chance(1, 10) {
+		c.Second = g.otherType(typeNames, noun, false)
+		c.Second.Where = "top-level-after"
+		if r.Chance(1, 4) {
+			c.Second.Where = "top-level-before"
+		}
+	}
 	// any member order ...
 	perm := r.Perm(len(members))
 	ordered := make([]*Member, len(members))
@@ -771,8 +816,47 @@ func rank(kind string) int {
 		return 0
 	case KindCtor:
 		return 1
+	case KindNested:
+		return 3
 	}
 	return 2
+}
+
+// otherType draws a small class without mapping annotations (nested=true: a member class).
+func (g *gen) otherType(used map[string]bool, noun string, nested bool) *OtherType {
+	r := g.r
+	ot := &OtherType{}
+	ot.Name = uniqueName(used, r.Pick([]string{noun, "Place" + noun, "Create" + noun, ""})+r.Pick([]string{"View", "Request", "Response", "Result", "Filter", "Entry"}))
+	if nested {
+		ot.Mods = r.Pick([]string{"static", "static", "public static", "private static", "public static final", ""})
+	}
+	if r.Chance(1, 3) {
+		ot.Annos = []string{r.Pick([]string{"@Data", "@JsonIgnoreProperties(ignoreUnknown = true)", `@JsonRootName(value = "/root")`, "@Deprecated"})}
+	}
+	head := "class " + ot.Name
+	if ot.Mods != "" {
+		head = ot.Mods + " " + head
+	}
+	if r.Chance(1, 5) {
+		head += " implements Serializable"
+	}
+	ot.Lines = append(ot.Lines, head+" {")
+	fields := []string{"id", "sku", "name", "total", "note"}
+	k := r.Intn(len(fields))
+	for i, n := 0, r.Range(0, 2); i < n; i++ {
+		f := fields[(k+i)%len(fields)]
+		if r.Chance(1, 4) {
+			ot.Lines = append(ot.Lines, `    @JsonProperty("/`+f+`")`)
+		}
+		ot.Lines = append(ot.Lines, "    private String "+f+";", "")
+		if r.Chance(2, 3) {
+			getter := "get" + strings.ToUpper(f[:1]) + f[1:]
+			ot.Methods = append(ot.Methods, getter)
+			ot.Lines = append(ot.Lines, "    public String "+getter+"() {", "        return "+f+";", "    }", "")
+		}
+	}
+	ot.Lines = append(ot.Lines, "}")
+	return ot
 }
 
 func (g *gen) fillClassAnnos(c *Class) {
@@ -954,6 +1038,26 @@ func (g *gen) finishClass(c *Class) {
 			seenMethod = true
 		}
 	}
+	nHandlers, handlersSeen, nestedSeen := len(c.Handlers()), 0, false
+	for _, m := range c.Members {
+		switch m.Kind {
+		case KindHandler:
+			handlersSeen++
+			m.AfterNested = nestedSeen
+		case KindNested:
+			nestedSeen = true
+			switch {
+			case nHandlers == 0:
+				m.Nested.Where = "nested-no-handlers"
+			case handlersSeen == 0:
+				m.Nested.Where = "nested-before-first-handler"
+			case handlersSeen == nHandlers:
+				m.Nested.Where = "nested-after-last-handler"
+			default:
+				m.Nested.Where = "nested-between-handlers"
+			}
+		}
+	}
 	seen := map[string]bool{}
 	for _, m := range c.Members {
 		if m.Mapping != nil && m.Mapping.VerbStyle != "" && !strings.HasPrefix(m.Mapping.VerbStyle, "RequestMethod.") && !seen[m.Mapping.VerbStyle] {
@@ -1037,6 +1141,22 @@ func render(c *Class) string {
 		sb.WriteString(i + "\n")
 	}
 	sb.WriteString("\n")
+	writeOther := func(ot *OtherType, indent string) {
+		for _, a := range ot.Annos {
+			sb.WriteString(indent + a + "\n")
+		}
+		for _, l := range ot.Lines {
+			if l == "" {
+				sb.WriteString("\n")
+			} else {
+				sb.WriteString(indent + l + "\n")
+			}
+		}
+	}
+	if c.Second != nil && c.Second.Where == "top-level-before" {
+		writeOther(c.Second, "")
+		sb.WriteString("\n")
+	}
 	if c.HeaderNote != "" {
 		sb.WriteString(c.HeaderNote + "\n")
 	}
@@ -1057,6 +1177,10 @@ func render(c *Class) string {
 		sb.WriteString("\n")
 		if m.Comment != "" {
 			sb.WriteString("    " + m.Comment + "\n")
+		}
+		if m.Kind == KindNested {
+			writeOther(m.Nested, "    ")
+			continue
 		}
 		var annos []string
 		annos = append(annos, m.AnnosBefore...)
@@ -1101,6 +1225,10 @@ func render(c *Class) string {
 		}
 	}
 	sb.WriteString("}\n")
+	if c.Second != nil && c.Second.Where == "top-level-after" {
+		sb.WriteString("\n")
+		writeOther(c.Second, "")
+	}
 	return sb.String()
 }
 
@@ -1179,6 +1307,9 @@ func Shape(p *Project) string {
 		}
 		if c.BaseTrailingSlash() {
 			sb.WriteString(":ts")
+		}
+		if c.Second != nil {
+			sb.WriteString(":" + c.Second.Where)
 		}
 		for _, m := range c.Members {
 			sb.WriteString("," + m.Kind)
